@@ -298,7 +298,7 @@ def long_scenarios(tier: str, seed: int) -> list[dict[str, Any]]:
     out: list[dict[str, Any]] = []
     allbytes = [bytes([b]) for b in range(256)] + [bytes(range(256)), bytes(range(255, -1, -1)) * 15 + bytes(255)]
     specs: list[Any] = [[m.hex() for m in allbytes]]
-    nb = 2 if tier == "quick" else 8
+    nb = 2 if tier == "quick" else 16
     for i in range(nb):
         specs.append({"rand": [seed * 1000 + i, 100, "small" if i % 2 == 0 else "mixed"]})
     if tier == "thorough":
@@ -307,7 +307,7 @@ def long_scenarios(tier: str, seed: int) -> list[dict[str, Any]]:
     else:
         for a in (1, 4000):
             specs.append({"rand": [seed * 1000 + 500 + a, 96 if a == 4000 else 40, f"len:{a}"]})
-    reps = 2 if tier == "quick" else 4
+    reps = 2 if tier == "quick" else 6
     for si, spec in enumerate(specs):
         for kind in L.KINDS:
             srcs = ["ref"]
@@ -696,7 +696,10 @@ def drive_enumerated(rep: Report, tier: str, seed: int) -> tuple[list[dict[str, 
                                     with_allseg=(not quick) or (si == 0 and kind != "unix"))
         scns += explore_scenarios(kind, TINY_SET)
         if tier == "thorough":
-            scns += explore_scenarios(kind, [b"\x0a", b"\xab\xcd"] if kind == "tcp" else [b"\x0a\x0b"])
+            scns += explore_scenarios(kind, [b"\x0a", b"\xab\xcd"])              # 8 stream bytes
+            scns += explore_scenarios(kind, [b"\x0a", b"\xab", b"\x00"])         # 9 stream bytes
+            if kind == "tcp":
+                scns += explore_scenarios(kind, [b"\x0a\x0b", b"\xcd\x0e"])      # 10 stream bytes
     # both directions through the real writers: client.write -> server loop, server reply -> client.read
     for wk in L.CLIENT_KINDS:
         scns += short_scenarios("server", SHORT_SETS[0], f"client:{wk}", tier, with_allseg=False, lean=tier == "quick")
@@ -739,7 +742,9 @@ def run(tier: str, seed: int) -> Report:
         "ls": lambda: tlc.run_tlc("MC_LinesStream", "MC_LinesStream.cfg", timeout=1800, coverage=True, workers=4),
         "ls_dev": lambda: tlc.run_tlc("MC_LinesStream", "MC_LinesStream_devS14.cfg", timeout=600, workers=2),
     }
-    nsim = 150 if tier == "quick" else 1500
+    if tier == "thorough":
+        jobs["ls_big"] = lambda: tlc.run_tlc("MC_LinesStream", "MC_LinesStream_big.cfg", timeout=1800, workers=6)
+    nsim = 150 if tier == "quick" else 3000
     jobs["sim"] = lambda: tlc.simulate_behaviours("MC_LinesStream", "MC_LinesStream_sim.cfg", num=nsim, depth=40,
                                                   seed=seed + 1, timeout=900)
     pool = ThreadPoolExecutor(max_workers=6)
@@ -791,6 +796,11 @@ def run(tier: str, seed: int) -> Report:
     if any(v == 0 for v in acts.values()):
         raise Machinery(f"vacuous model: design actions never taken: {acts}")
     rep.extra["design_action_coverage"] = acts
+    if "ls_big" in mc:
+        rep.add_tlc(mc["ls_big"], "MC_LinesStream_big (4 messages of length 1..3, 5 of length 1..2)")
+        if not mc["ls_big"].ok:
+            rep.violate(f"design/{mc['ls_big'].violated}", {"where": "LinesStream design layer", "cfg": "big"},
+                        {"cex": mc["ls_big"].cex[-6:]})
     res = mc["ls_dev"]
     rep.add_tlc(res, "MC_LinesStream_devS14 (negative control)")
     if res.violated != "T3_EndOfStreamDistinct":
@@ -852,8 +862,9 @@ def run(tier: str, seed: int) -> Report:
     rep.extra["exhaustive_spaces"] = (
         "for each of tcp-lines client, unix-lines client, server loop: every single split point, every pair of split "
         "points, every peer-close offset and every timeout position of three 10-11 byte streams; every segmentation "
-        "(2^(n-1)) of the first stream (thorough: of all three); every choice vector {no cut, cut, cut+timeout, close}^5 x "
-        "{close, open} of a 6 byte stream. Long bursts, random multi-splits and real-socket runs are sampled (seeded).")
+        "(2^(n-1)) of the first stream (thorough: of all three); every choice vector {no cut, cut, cut+timeout, close}^(n-1) x "
+        "{close, open} of a 6 byte stream (thorough: also of an 8 and a 9 byte stream, tcp-lines client: of a 10 byte stream). Long bursts, random multi-splits "
+        "and real-socket runs are sampled (seeded).")
     # ---- 6. binding self-tests
     self_tests(rep, results, verdicts)
     return rep
